@@ -159,8 +159,15 @@ def run_case(cs, ctx):
         cnt = {}
         findings, facts = en.judge_lp(ex, ref, counters=cnt)
         ctx.cnt('result_orders_judged', cnt.get('c16_order_judged', 0))
+        ctx.cnt('result_prefix_located_from_trace', cnt.get('c16_prefix_located', 0))
         for f in findings:
             ctx.finding(f, dict(case, short=ex['short']))
+        # extras stay with their criterion: the parser's list must be unchanged by solving
+        if ex['solver'] is not None:
+            ctx.cnt('orders_judged_after_solve')
+            after = observed_order(ex['solver'])
+            if after != want:
+                ctx.finding(en.F('C16', 'extras_kept_after_solve', 'after solve() optimisation_options = %s, expected %s' % (after, want)), case)
         if facts.get('status') and facts['status'] != 'Optimal' and crits:
             ctx.cov('non_optimal_prefix_runs')
     ctx.sample({'argv': case['argv'], 'parsed_order': got}, cap=3)
